@@ -203,23 +203,37 @@ func c11RejectCase(tier string, seed int64, idx int, scratch string) rt.CaseResu
 	}
 	defer in.Close()
 	defer verif.SetWriteFault(nil)
+	defer verif.SetOpFault(nil)
 	sizes := []int{0, 1, 2047, 2048, 2049, 100000, 1 << 20, 4<<20 + 17}
 	for round := 0; round < tierN(tier, 2, 4); round++ {
 		for _, size := range sizes {
 			for _, api := range []string{"set", "setreader", "create"} {
-				for _, rej := range []string{"empty-key", "no-space", "none"} {
+				for _, rej := range []string{"empty-key", "no-space", "io-error", "metadata-failure", "none"} {
 					rt.Beat()
 					key := "k"
 					if rej == "empty-key" {
 						key = ""
 					}
-					if rej == "no-space" {
+					verif.SetWriteFault(nil)
+					verif.SetOpFault(nil)
+					switch rej {
+					case "no-space":
 						if size == 0 {
 							continue // nothing is written, nothing can fail
 						}
 						verif.SetWriteFault(func(path string, p []byte) (int, error, bool) { return 0, syscall.ENOSPC, true })
-					} else {
-						verif.SetWriteFault(nil)
+					case "io-error":
+						if size == 0 {
+							continue
+						}
+						verif.SetWriteFault(func(path string, p []byte) (int, error, bool) { return len(p) / 2, syscall.EIO, true })
+					case "metadata-failure":
+						verif.SetOpFault(func(op, path string) error {
+							if op == "badger.set" && strings.HasPrefix(path, "file/") {
+								return errors.New("injected failure of the version record write")
+							}
+							return nil
+						})
 					}
 					content := seqrun.Content(fmt.Sprintf("r%d-%d-%s-%s", idx, size, api, rej), size)
 					do := func(db fs_db.DB) error {
@@ -256,7 +270,7 @@ func c11RejectCase(tier string, seed int64, idx int, scratch string) rt.CaseResu
 		}
 	}
 	if idx == 0 {
-		c.Sample = map[string]any{"rejections": []string{"empty key", "no space on any root (hook in the in-process server)", "none"}, "sizes": sizes}
+		c.Sample = map[string]any{"rejections": []string{"empty key", "no space on any root (hook in the in-process server)", "I/O error after half a chunk", "version record cannot be written", "none"}, "sizes": sizes}
 	}
 	return c
 }
